@@ -4,7 +4,7 @@
 SEED=$(realpath $1); DEST=$2; CRATE=$3; WT=${4:-/tmp/wt_confirm}
 export CARGO_TARGET_DIR=/tmp/p3target_full CARGO_NET_OFFLINE=true
 [ -d $WT ] || git -C /repo worktree add -f $WT main >/dev/null 2>&1
-cd $WT && git checkout -q --detach main && git reset -q --hard && git clean -fdq
+cd $WT && git reset -q --hard && git clean -fdq && git checkout -q --detach main
 DEMO=$(ls $SEED/demo_*.rs | head -1)
 mkdir -p $(dirname $DEST) && cp $DEMO $DEST
 T=$(basename $DEST .rs)
